@@ -12,7 +12,8 @@ Inductive fevent :=
 | FStop (r : rid) (v : view)
 | FTimeout (r : rid) (v : view) (h : hash)
 | FVote (r : rid) (h : hash) (agg : option (view * list (rid * hash)))
-| FCommit (r : rid) (hp : hash) (obs : list hash).
+| FCommit (r : rid) (hp : hash) (obs : list hash)
+| FCommits (r : rid) (cands : list hash) (obs : list hash).
 
 Fixpoint assoc_hash (l : list (rid * hash)) (i : rid) : hash :=
   match l with
@@ -65,6 +66,43 @@ Section Exec.
                else true) (f_votes s).
 
   Definition ffuel (s : fstate) : nat := S (length (f_blocks s)).
+
+  Definition try_fcommit (s : fstate) (r : rid) (hp : hash) (obs : list hash) : option (fstate * list hash) :=
+    match U s hp with
+    | None => None
+    | Some p =>
+        match U s (b_qc p) with
+        | None => None
+        | Some g =>
+            if honest r && N.eqb (b_hash p) hp && N.eqb (b_hash g) (b_qc p) && fcertb s (b_hash p) &&
+               N.eqb (b_parent p) (b_hash g) && N.eqb (b_view p) (b_view g + 1)
+            then match segb (ffuel s) (U s) g (b_view (f_head (loc s r))) with
+                 | Some (x :: l') =>
+                     let l := x :: l' in
+                     match strip_prefix (map b_hash l) obs with
+                     | Some rest =>
+                         Some (fset_loc s r
+                                {| f_lastVoted := f_lastVoted (loc s r);
+                                   f_head := if b_view (f_head (loc s r)) <? b_view g then g
+                                             else f_head (loc s r);
+                                   f_log := f_log (loc s r) ++ l |}, rest)
+                     | None => None
+                     end
+                 | _ => None
+                 end
+            else None
+        end
+    end.
+
+  Fixpoint fcommits_fold (s : fstate) (r : rid) (cands : list hash) (obs : list hash) : option fstate :=
+    match cands with
+    | [] => match obs with [] => Some s | _ => None end
+    | hp :: rest =>
+        match try_fcommit s r hp obs with
+        | Some (s', obs') => fcommits_fold s' r rest obs'
+        | None => fcommits_fold s r rest obs
+        end
+    end.
 
   Definition fstep (s : fstate) (e : fevent) : option fstate :=
     match e with
@@ -125,6 +163,7 @@ Section Exec.
                 else None
             end
         end
+    | FCommits r cands obs => fcommits_fold s r cands obs
     end.
 
   Fixpoint frun (s : fstate) (es : list fevent) (i : nat) : fstate * option nat :=
